@@ -404,8 +404,14 @@ class Model:
 
     def _propagate_ne_expr(self, left, right, is_ne: bool, domains: dict[str, set[int]]) -> bool:
         """Propagate (left_expr != right_expr) or (left_expr == right_expr)."""
+        if not (self._is_flat_sum(left) and self._is_flat_sum(right)):
+            return self._propagate_linear(left, right, is_ne, domains)
+
         left_terms, left_const = self._flatten_sum(left)
         right_terms, right_const = self._flatten_sum(right)
+
+        if len(left_terms) != 1 or len(right_terms) != 1:
+            return self._propagate_linear(left, right, is_ne, domains)
 
         if len(left_terms) == 1 and len(right_terms) == 1:
             var1, var2 = left_terms[0], right_terms[0]
@@ -428,4 +434,52 @@ class Model:
                 domains[var1.name] = valid1
                 domains[var2.name] = valid2
 
+        return True
+
+    def _is_flat_sum(self, expr) -> bool:
+        """True if expr only adds variables and constants (what _flatten_sum reads exactly)."""
+        if isinstance(expr, tuple):
+            return expr[0] == "add" and self._is_flat_sum(expr[1]) and self._is_flat_sum(expr[2])
+        return True
+
+    def _propagate_linear(self, left, right, is_ne: bool, domains: dict[str, set[int]]) -> bool:
+        """Propagate left ==/!= right for any linear expressions once at most one variable is open."""
+        coefs: dict[str, int] = {}
+        const = 0
+
+        def walk(e, k):
+            nonlocal const
+            if isinstance(e, IntVar):
+                coefs[e.name] = coefs.get(e.name, 0) + k
+            elif isinstance(e, int):
+                const += k * e
+            elif e[0] == "add":
+                walk(e[1], k)
+                walk(e[2], k)
+            elif e[0] == "sub":
+                walk(e[1], k)
+                walk(e[2], -k)
+            elif e[0] == "mul":
+                walk(e[1], k * e[2])
+            elif e[0] == "rsub":
+                const += k * e[2]
+                walk(e[1], -k)
+
+        walk(left, 1)
+        walk(right, -1)
+        open_vars = []
+        for name, k in coefs.items():
+            if k == 0:
+                continue
+            if len(domains[name]) == 1:
+                const += k * next(iter(domains[name]))
+            else:
+                open_vars.append(name)
+        if not open_vars:
+            return (const != 0) if is_ne else (const == 0)
+        if len(open_vars) == 1:
+            name = open_vars[0]
+            k = coefs[name]
+            domains[name] = {v for v in domains[name] if ((k * v + const) != 0) == is_ne}
+            return bool(domains[name])
         return True
